@@ -394,6 +394,22 @@ func (c *Check) prepareReplays(runs []*harnessRun) {
 		for k := 0; k < len(oks) && k < 3; k++ {
 			pick[k] = true
 		}
+		if nstr := os.Getenv("VERIF_VALIDATE_N"); nstr != "" && len(oks) > 0 {
+			// development aid: N more pseudo-random samples
+			var n int
+			fmt.Sscan(nstr, &n)
+			x := uint64(c.Seed)*2862933555777941757 + 3037000493
+			for k := 0; k < n; k++ {
+				x = x*6364136223846793005 + 1442695040888963407
+				pick[int((x>>33)%uint64(len(oks)))] = true
+			}
+		}
+		if os.Getenv("VERIF_VALIDATE_ALL") != "" {
+			// development aid: replay every completed path natively
+			for k := range oks {
+				pick[k] = true
+			}
+		}
 		if len(oks) > 3 {
 			x := uint64(c.Seed)*6364136223846793005 + 1442695040888963407
 			for k := 0; k < 3; k++ {
